@@ -78,6 +78,15 @@ static sexp_uint_t hash_one (sexp ctx, sexp obj, sexp_uint_t bound, sexp_sint_t 
           for (i=0; i<right_size; i++) {acc *= FNV_PRIME; acc ^= p_right[i];}
         } else
 #endif
+#if ! SEXP_USE_PACKED_STRINGS
+        /* a string is a view into a byte vector: hash the bytes it shows */
+        if (sexp_stringp(obj)) {
+          right_size = sexp_string_size(obj);
+          p_right = sexp_string_data(obj);
+          for (i=0; i<right_size; i++) {acc *= FNV_PRIME; acc ^= p_right[i];}
+          return (bound ? acc % bound : acc);
+        } else
+#endif
         /* hash uvector data (otherwise strings all hash to the same value) */
         if (sexp_bytesp(obj) || sexp_uvectorp(obj)) {
           p_right = ((char*)p + sexp_type_num_slots_of_object(t, obj)*sizeof(sexp));
